@@ -104,6 +104,9 @@ pub struct RefAccrual {
     pub util: Rat,
     /// false when nothing accrues (dt == 0, or no assets, or no liabilities)
     pub active: bool,
+    /// deposits or debt of the bank are within a few thousand grid steps of zero: the utilisation
+    /// the program computes from its truncated totals can be anywhere, so nothing is judged
+    pub dust: bool,
 }
 
 /// Reference accrual over `dt` seconds from the bank's pre-state (App. B). The error bounds follow
@@ -113,7 +116,7 @@ pub fn ref_accrue(b: &Bank, g: &MarginfiGroup, dt: i64) -> Option<RefAccrual> {
     let q = BankQ::of(b);
     let exact = |r: Rat| Iv::exact(r);
     if dt <= 0 || q.d.is_zero() || q.l.is_zero() {
-        return Some(RefAccrual { asv: exact(q.asv.clone()), lsv: exact(q.lsv.clone()), d_ins: exact(zero()), d_grp: exact(zero()), d_prog: exact(zero()), base: zero(), util: zero(), active: false });
+        return Some(RefAccrual { asv: exact(q.asv.clone()), lsv: exact(q.lsv.clone()), d_ins: exact(zero()), d_grp: exact(zero()), d_prog: exact(zero()), base: zero(), util: zero(), active: false, dust: false });
     }
     let c = &b.config.interest_rate_config;
     let u = &q.l / &q.d;
@@ -133,11 +136,14 @@ pub fn ref_accrue(b: &Bank, g: &MarginfiGroup, dt: i64) -> Option<RefAccrual> {
     // the interpolated base rate carries an error proportional to the local slope of the curve
     // (breakpoints and the utilisation are themselves truncated to the 2^-48 grid)
     let slope = max_slope(c);
-    let base_e = ulp() * ri(16) * (one() + &slope);
+    // the utilisation is the quotient of two truncated totals: relative error ulp/deposits + ulp/debt
+    let dust = q.d < ulp() * ri(1 << 16) || q.l < ulp() * ri(1 << 16);
+    let du = (&u + one()) * (ulp() / &q.d + ulp() / &q.l) * ri(4);
+    let base_e = ulp() * ri(16) * (one() + &slope) + &slope * &du;
     let fee_mult = one() + abs(&ins_r) + abs(&grp_r) + abs(&pf_rate) + abs(&u);
     let rate_err = |mag: &Rat| (abs(mag) + one()) * &k * ulp() + &base_e * &fee_mult;
     let u_mag = abs(&u) + one();
-    let lend_e = rate_err(&lend) * &u_mag;
+    let lend_e = rate_err(&lend) * &u_mag + (abs(&base) + one()) * &du;
     let borrow_e = rate_err(&borrow);
     let asv_new = &q.asv * (one() + &lend * &t);
     let lsv_new = &q.lsv * (one() + &borrow * &t);
@@ -159,6 +165,7 @@ pub fn ref_accrue(b: &Bank, g: &MarginfiGroup, dt: i64) -> Option<RefAccrual> {
         base,
         util: u,
         active: true,
+        dust,
     })
 }
 
